@@ -23,6 +23,10 @@ CHECKS = {}  # filled from sim/props/*.py that exist and are listed in ENABLED
 ENABLED = json.load(open(os.path.join(HERE, "bin", "enabled.json")))
 
 TEXT = {
+    "C15": ("exploration",
+            "Seeded exploration over worlds of 1-5 inputs (sibling and nested directories with their own configs and ignore lists, unparsable and already-formatted inputs): every permutation (n<=3; 6 sampled otherwise) as one real invocation, the n single-input invocations, 3 extra hash seeds, 2 other working directories / path spellings, a perturbed environment and stdin delivery; oracles: per-file result of every run equals the single-input run's, exit status is the maximum, stderr report lines are the multiset union, mutating-operation sequence independent of the hash seed.",
+            "Trusts per-mode extraction of per-file results by file name; config-level `Warning:` lines are excluded from report comparison.",
+            "deterministic simulation: history/permutation and hash-seed search over the real binary with differential oracle", "s4 C15"),
     "C14": ("exploration",
             "Seeded exploration of directory layouts of config files (0-3 levels + sibling, both file names, a directory named like a config, $HOME / $XDG_CONFIG_HOME / HOME unset), 60 options incl. deprecated aliases, CLI override subsets and input orders. Differential oracles on the real binary: each probe's bytes and --print-config dump in the discovered, multi-file invocation equal those of a fresh single-file run handed the reference model's effective options explicitly (in a file, and all on the command line); dump fixpoint; widths vs max_width; unreadable candidate is an error (injected errno); three hash seeds per world.",
             "Trusts the 40-line reference model of discovery/precedence (documented rules), that a rejected reference run means 'skip', and the sealing of the world by the interposer (config probes outside the world answer ENOENT).",
